@@ -723,7 +723,8 @@ namespace gtry::scl::strm
 		ENIF(param.outTransfer) bytesLeft = reg(bytesLeft, bytesPerBeatIn);
 
 		BitWidth emptyOutW = BitWidth::count(bytesPerBeatOut);
-		return { (bytesLeft - zext(empty(inStream))).lower(emptyOutW)};
+		// bytesLeft - empty = valid bytes from the current narrow beat on; the narrow beat's empty count is what is missing to a full beat
+		return { (bytesPerBeatOut - (bytesLeft - zext(empty(inStream)))).lower(emptyOutW)};
 	}
 
 	Error reduceStreamMeta(Error& in, StreamSignal auto& inStream, const WidthManipMetaParams& param)
@@ -747,7 +748,8 @@ namespace gtry::scl::strm
 		ENIF(param.outTransfer) bitsLeft = reg(bitsLeft, bitsPerBeatIn);
 
 		BitWidth emptyBitsOutW = BitWidth::count(bitsPerBeatOut);
-		return { (bitsLeft - zext(emptyBits(inStream))).lower(emptyBitsOutW)};
+		// bitsLeft - emptyBits = valid bits from the current narrow beat on; the narrow beat's empty count is what is missing to a full beat
+		return { (bitsPerBeatOut - (bitsLeft - zext(emptyBits(inStream)))).lower(emptyBitsOutW)};
 	}
 
 	template <Signal SignalT>
